@@ -115,11 +115,11 @@ type authdFact struct {
 func authdFacts(gt engine.Gate) []authdFact {
 	var out []authdFact
 	if gt.OnTrue {
-		for _, a := range engine.Conjuncts(gt.Cond, token.LAND) {
+		for _, a := range engine.Conjuncts(gt.Full(), token.LAND) {
 			out = append(out, authdStripNot(a, false))
 		}
 	} else {
-		for _, a := range engine.Conjuncts(gt.Cond, token.LOR) {
+		for _, a := range engine.Conjuncts(gt.Full(), token.LOR) {
 			out = append(out, authdStripNot(a, true))
 		}
 	}
@@ -339,4 +339,26 @@ func authdStmtSite(f *engine.Fn, st ast.Stmt) *engine.Site {
 		}
 	}
 	return nil
+}
+
+// authdResolveLocal replaces an identifier that names a single-definition local
+// of f by its defining expression (one step; hoisting / local aliases).
+func authdResolveLocal(f *engine.Fn, e ast.Expr) ast.Expr {
+	id, ok := ast.Unparen(e).(*ast.Ident)
+	if !ok {
+		return e
+	}
+	o, isVar := f.Info().ObjectOf(id).(*types.Var)
+	if !isVar || o.IsField() {
+		return e
+	}
+	for _, q := range authdOperands(f.Root()) {
+		if q == types.Object(o) {
+			return e
+		}
+	}
+	if d := authdAssignsTo(f, o); len(d) == 1 && d[0] != nil {
+		return d[0]
+	}
+	return e
 }
